@@ -6,6 +6,9 @@ open PedVerif.Mixins
 #print axioms non_generic_asserts
 #print axioms unparametrised_asserts
 #print axioms must_assert
+#print axioms direct_with_parametrised_mixins
+#print axioms binding_subclass_of_direct_with_parametrised_mixins
+#print axioms binding_subclass_second_subscripted_base_first_wins
 #print axioms lookup_plain_single
 #print axioms lin_nodup
 #print axioms applyApps_dict
